@@ -17,8 +17,17 @@
 
 extern "C" {
 #define CUCKOO_TABLE_NAME vt
-#define CUCKOO_KEY_TYPE int
-#define CUCKOO_MAPPED_TYPE int
+// key / mapped types of the instantiation (the wrapper is a template over them; sizes that differ expose byte-count slips)
+#ifndef VH_KT
+#define VH_KT int
+#endif
+#ifndef VH_MT
+#define VH_MT int
+#endif
+typedef VH_KT KT;
+typedef VH_MT MT;
+#define CUCKOO_KEY_TYPE KT
+#define CUCKOO_MAPPED_TYPE MT
 #include <libcuckoo-c/cuckoo_table_template.h>
 }
 #include <libcuckoo-c/cuckoo_table_template.cc>
@@ -51,16 +60,16 @@ void operator delete(void *p, size_t) noexcept { if (p) { --g_live; free(p); } }
 void operator delete(void *p, std::align_val_t) noexcept { if (p) { --g_live; free(p); } }
 void operator delete(void *p, size_t, std::align_val_t) noexcept { if (p) { --g_live; free(p); } }
 
-using Ref = libcuckoo::cuckoohash_map<int, int>;
-using Abs = std::map<int, int>;
+using Ref = libcuckoo::cuckoohash_map<KT, MT>;
+using Abs = std::map<KT, MT>;
 
 static Abs abs_of(Ref &t) { Abs m; auto lt = t.lock_table(); for (auto &kv : lt) m[kv.first] = kv.second; return m; }
 static Abs abs_of_c(vt *t) { return abs_of(t->t); }
 
-static void fn_add1(int *v) { *v += 1; }
-static int g_seen = 0, g_calls = 0;
-static void fn_see(const int *v) { g_seen = *v; ++g_calls; }
-static bool fn_odd(int *v) { ++g_calls; return (*v % 2) != 0; }
+static void fn_add1(MT *v) { *v += 1; }
+static MT g_seen = 0; static int g_calls = 0;
+static void fn_see(const MT *v) { g_seen = *v; ++g_calls; }
+static bool fn_odd(MT *v) { ++g_calls; return (*v % 2) != 0; }
 
 struct Cross {};
 // runs a C call; any exception crossing it is a finding
@@ -82,7 +91,7 @@ int main() {
     std::istringstream is(line);
     std::string w; is >> w;
     long a = 0, b = 0; is >> a >> b;
-    int ka = (int)a, vb = (int)b;
+    KT ka = (KT)a; MT vb = (MT)b;
     std::string out = "ok";
     auto cmp = [&](long cres, long rres, const char *what) { if (cres != rres) out = std::string("DIFF ") + what + ": C=" + std::to_string(cres) + " C++=" + std::to_string(rres); };
     if (w == "init") {
@@ -102,23 +111,23 @@ int main() {
     } else if (w == "erase") { bool cr = false; if (guard(out, [&] { cr = vt_erase(c, &ka); })) cmp(cr, r->erase(ka), "erase");
     } else if (w == "contains") { bool cr = false; if (guard(out, [&] { cr = vt_contains(c, &ka); })) cmp(cr, r->contains(ka), "contains");
     } else if (w == "find") {
-      bool cr = false; int cv = -1, rv = -1;
+      bool cr = false; MT cv = -1, rv = -1;
       if (guard(out, [&] { cr = vt_find(c, &ka, &cv); })) { bool rr = r->find(ka, rv); cmp(cr, rr, "find"); if (out == "ok" && cr) cmp(cv, rv, "find value"); }
     } else if (w == "upsert") {
       bool cr = false;
-      if (guard(out, [&] { cr = vt_upsert(c, &ka, fn_add1, &vb); })) cmp(cr, r->upsert(ka, [](int &v) { v += 1; }, vb), "upsert");
+      if (guard(out, [&] { cr = vt_upsert(c, &ka, fn_add1, &vb); })) cmp(cr, r->upsert(ka, [](MT &v) { v += 1; }, vb), "upsert");
     } else if (w == "find_fn") {
       bool cr = false; g_calls = 0; g_seen = -1;
       if (guard(out, [&] { cr = vt_find_fn(c, &ka, fn_see); })) {
-        int seen = -1, calls = 0; bool rr = r->find_fn(ka, [&](const int &v) { seen = v; ++calls; });
+        MT seen = -1; int calls = 0; bool rr = r->find_fn(ka, [&](const MT &v) { seen = v; ++calls; });
         cmp(cr, rr, "find_fn"); if (out == "ok") cmp(g_calls, calls, "find_fn calls"); if (out == "ok") cmp(g_seen, seen, "find_fn value");
       }
     } else if (w == "update_fn") {
       bool cr = false;
-      if (guard(out, [&] { cr = vt_update_fn(c, &ka, fn_add1); })) cmp(cr, r->update_fn(ka, [](int &v) { v += 1; }), "update_fn");
+      if (guard(out, [&] { cr = vt_update_fn(c, &ka, fn_add1); })) cmp(cr, r->update_fn(ka, [](MT &v) { v += 1; }), "update_fn");
     } else if (w == "erase_fn") {
       bool cr = false; g_calls = 0;
-      if (guard(out, [&] { cr = vt_erase_fn(c, &ka, fn_odd); })) cmp(cr, r->erase_fn(ka, [](int &v) { return (v % 2) != 0; }), "erase_fn");
+      if (guard(out, [&] { cr = vt_erase_fn(c, &ka, fn_odd); })) cmp(cr, r->erase_fn(ka, [](MT &v) { return (v % 2) != 0; }), "erase_fn");
     } else if (w == "rehash") { bool cr = false; if (guard(out, [&] { cr = vt_rehash(c, (size_t)a); })) cmp(cr, r->rehash((size_t)a), "rehash");
     } else if (w == "reserve") { bool cr = false; if (guard(out, [&] { cr = vt_reserve(c, (size_t)a); })) cmp(cr, r->reserve((size_t)a), "reserve");
     } else if (w == "clear") { if (guard(out, [&] { vt_clear(c); })) r->clear();
@@ -146,7 +155,7 @@ int main() {
       if (it) vt_iterator_free(it);
     } else if (w == "lterase") { size_t cr = 0; if (guard(out, [&] { cr = vt_locked_table_erase(clt, &ka); })) cmp(cr, rlt->erase(ka), "locked erase");
     } else if (w == "ltfind") {
-      vt_iterator *it = nullptr, *en = nullptr; bool found = false; int fv = 0;
+      vt_iterator *it = nullptr, *en = nullptr; bool found = false; MT fv = 0;
       if (guard(out, [&] { it = vt_locked_table_begin(clt); en = vt_locked_table_end(clt); vt_locked_table_find(clt, &ka, it); found = !vt_iterator_equal(it, en); if (found) fv = *vt_iterator_mapped(it); })) {
         auto ri = rlt->find(ka); cmp(found, ri != rlt->end(), "locked find"); if (out == "ok" && found) cmp(fv, ri->second, "locked find value");
       }
@@ -162,7 +171,7 @@ int main() {
       if (it) vt_iterator_free(it); if (en) vt_iterator_free(en);
     } else if (w == "ltiter") {
       // forward and backward walk through the C iterators vs the C++ iterators
-      std::vector<std::pair<int, int>> cf, cb, rf;
+      std::vector<std::pair<KT, MT>> cf, cb, rf;
       vt_const_iterator *it = nullptr, *en = nullptr, *bg = nullptr;
       if (guard(out, [&] {
             it = vt_locked_table_cbegin(clt); en = vt_locked_table_cend(clt); bg = vt_locked_table_cbegin(clt);
@@ -172,7 +181,7 @@ int main() {
           })) {
         for (auto &kv : *rlt) rf.push_back({kv.first, kv.second});
         if (cf != rf) out = "DIFF forward iteration differs from the C++ table";
-        else { std::vector<std::pair<int, int>> rb(rf.rbegin(), rf.rend()); if (cb != rb) out = "DIFF backward iteration is not the reverse of forward"; else out = "ok n=" + std::to_string(cf.size()); }
+        else { std::vector<std::pair<KT, MT>> rb(rf.rbegin(), rf.rend()); if (cb != rb) out = "DIFF backward iteration is not the reverse of forward"; else out = "ok n=" + std::to_string(cf.size()); }
       }
       if (it) vt_const_iterator_free(it); if (en) vt_const_iterator_free(en); if (bg) vt_const_iterator_free(bg);
     } else if (w == "ltrehash") { if (guard(out, [&] { vt_locked_table_rehash(clt, (size_t)a); })) rlt->rehash((size_t)a);
@@ -223,7 +232,7 @@ int main() {
       }
     } else if (w == "sweep") {
       // sweep <op> a b : fail the k-th global allocation for every reachable k; the op must report ENOMEM and change nothing
-      std::string op; std::istringstream is2(line); std::string dummy; is2 >> dummy >> op >> a >> b; ka = (int)a; vb = (int)b;
+      std::string op; std::istringstream is2(line); std::string dummy; is2 >> dummy >> op >> a >> b; ka = (KT)a; vb = (MT)b;
       Abs before = clt ? Abs() : abs_of_c(c);
       size_t hp0 = vt_hashpower(c);
       long n = 0;
@@ -255,7 +264,7 @@ int main() {
       }
       if (out == "ok") {
         // the op has now completed once without fault: mirror it on the reference
-        if (op == "insert") r->insert(ka, vb); else if (op == "ioa") r->insert_or_assign(ka, vb); else if (op == "upsert") r->upsert(ka, [](int &v) { v += 1; }, vb);
+        if (op == "insert") r->insert(ka, vb); else if (op == "ioa") r->insert_or_assign(ka, vb); else if (op == "upsert") r->upsert(ka, [](MT &v) { v += 1; }, vb);
         else if (op == "rehash") r->rehash((size_t)a); else if (op == "reserve") r->reserve((size_t)a);
         else if (op == "ltinsert") rlt->insert(ka, vb); else if (op == "ltrehash") rlt->rehash((size_t)a); else if (op == "ltreserve") rlt->reserve((size_t)a);
         out = "swept n=" + std::to_string(n);
